@@ -92,68 +92,8 @@ func (g *CG) Callees(fn *ssa.Function) []*ssa.Function {
 		return r
 	}
 	set := map[*ssa.Function]bool{}
-	add := func(f *ssa.Function) {
-		if f == nil {
-			return
-		}
-		if f.Blocks == nil {
-			return
-		}
-		if !isIstioFunc(f) {
-			return
-		}
-		set[f] = true
-	}
-	var ops []*ssa.Value
 	for _, b := range fn.Blocks {
-		for _, ins := range b.Instrs {
-			// referenced function values / closures
-			ops = ins.Operands(ops[:0])
-			for _, op := range ops {
-				if op == nil || *op == nil {
-					continue
-				}
-				switch v := (*op).(type) {
-				case *ssa.Function:
-					add(v)
-				case *ssa.MakeClosure:
-					if f, ok := v.Fn.(*ssa.Function); ok {
-						add(f)
-					}
-				}
-			}
-			if mc, ok := ins.(*ssa.MakeClosure); ok {
-				if f, ok := mc.Fn.(*ssa.Function); ok {
-					add(f)
-				}
-			}
-			ci, ok := ins.(ssa.CallInstruction)
-			if !ok {
-				continue
-			}
-			cc := ci.Common()
-			if cc.IsInvoke() {
-				recvT := cc.Value.Type()
-				// single concrete type when the receiver is a MakeInterface in this function
-				if mi, ok := cc.Value.(*ssa.MakeInterface); ok {
-					sel := g.p.SSA.MethodSets.MethodSet(mi.X.Type()).Lookup(cc.Method.Pkg(), cc.Method.Name())
-					if sel != nil {
-						add(g.p.SSA.MethodValue(sel))
-						continue
-					}
-				}
-				it, ok := recvT.Underlying().(*types.Interface)
-				if !ok {
-					// type parameter receiver etc.
-					continue
-				}
-				for _, f := range g.impls(it, recvT, cc.Method) {
-					add(f)
-				}
-			} else if f := cc.StaticCallee(); f != nil {
-				add(f)
-			}
-		}
+		g.blockCallees(b, set)
 	}
 	out := make([]*ssa.Function, 0, len(set))
 	for f := range set {
@@ -162,6 +102,109 @@ func (g *CG) Callees(fn *ssa.Function) []*ssa.Function {
 	sort.Slice(out, func(i, j int) bool { return fnKey(out[i]) < fnKey(out[j]) })
 	g.calleeMemo[fn] = out
 	return out
+}
+
+// blockCallees adds the bounded out-edges of one basic block to set.
+func (g *CG) blockCallees(b *ssa.BasicBlock, set map[*ssa.Function]bool) {
+	add := func(f *ssa.Function) {
+		if f == nil || f.Blocks == nil || !isIstioFunc(f) {
+			return
+		}
+		set[f] = true
+	}
+	var ops []*ssa.Value
+	for _, ins := range b.Instrs {
+		// referenced function values / closures
+		ops = ins.Operands(ops[:0])
+		for _, op := range ops {
+			if op == nil || *op == nil {
+				continue
+			}
+			switch v := (*op).(type) {
+			case *ssa.Function:
+				add(v)
+			case *ssa.MakeClosure:
+				if f, ok := v.Fn.(*ssa.Function); ok {
+					add(f)
+				}
+			}
+		}
+		if mc, ok := ins.(*ssa.MakeClosure); ok {
+			if f, ok := mc.Fn.(*ssa.Function); ok {
+				add(f)
+			}
+		}
+		ci, ok := ins.(ssa.CallInstruction)
+		if !ok {
+			continue
+		}
+		cc := ci.Common()
+		if cc.IsInvoke() {
+			recvT := cc.Value.Type()
+			// single concrete type when the receiver is a MakeInterface in this function
+			if mi, ok := cc.Value.(*ssa.MakeInterface); ok {
+				sel := g.p.SSA.MethodSets.MethodSet(mi.X.Type()).Lookup(cc.Method.Pkg(), cc.Method.Name())
+				if sel != nil {
+					add(g.p.SSA.MethodValue(sel))
+					continue
+				}
+			}
+			it, ok := recvT.Underlying().(*types.Interface)
+			if !ok {
+				continue
+			}
+			for _, f := range g.impls(it, recvT, cc.Method) {
+				add(f)
+			}
+		} else if f := cc.StaticCallee(); f != nil {
+			add(f)
+		}
+	}
+}
+
+// ReachLive is Reach with per-function block liveness: live(f) returns the set of live blocks of f, or nil for all.
+func (g *CG) ReachLive(entries []*ssa.Function, stop func(*ssa.Function) bool, live func(*ssa.Function) map[*ssa.BasicBlock]bool) map[*ssa.Function]*ssa.Function {
+	parent := map[*ssa.Function]*ssa.Function{}
+	var q []*ssa.Function
+	for _, e := range entries {
+		if e == nil {
+			continue
+		}
+		if _, ok := parent[e]; !ok {
+			parent[e] = nil
+			q = append(q, e)
+		}
+	}
+	for len(q) > 0 {
+		f := q[0]
+		q = q[1:]
+		var cs []*ssa.Function
+		if lb := live(f); lb == nil {
+			cs = g.Callees(f)
+		} else {
+			set := map[*ssa.Function]bool{}
+			for _, b := range f.Blocks {
+				if lb[b] {
+					g.blockCallees(b, set)
+				}
+			}
+			for c := range set {
+				cs = append(cs, c)
+			}
+			sort.Slice(cs, func(i, j int) bool { return fnKey(cs[i]) < fnKey(cs[j]) })
+		}
+		for _, c := range cs {
+			if _, ok := parent[c]; ok {
+				continue
+			}
+			if stop != nil && stop(c) {
+				continue
+			}
+			parent[c] = f
+			q = append(q, c)
+		}
+	}
+	return parent
 }
 
 // Reach computes the functions reachable from entries; the map value is the BFS parent (nil for entries).
